@@ -128,7 +128,7 @@ def make_scenario(rng, akind, bkind, method, exe, flavour="chan"):
     helper.append("(mark \"complete-B\") %s" % B["complete"])
     # rule 3: after everything, a fresh live taker on A's channel must still get what was given after the abandonment
     post = ""
-    if akind == "take" and method in ("cancel", "deadline") and bkind != "selgive-same":
+    if akind in ("take", "seltake") and method in ("cancel", "deadline") and bkind != "selgive-same":
         post = "(ev/sleep 0.02) (op 2 \"fresh-take\" (ev/with-deadline 2 (ev/take a)))"
     lines.append("(ev/spawn %s %s (mark \"helper-done\") (ev/sleep 0.06) (os/exit 0))" % (" ".join(helper), post))
     # safety net so the process always ends (logical hang detection is done from the log)
